@@ -16,6 +16,7 @@ import (
 	"testing"
 	"time"
 
+	cj "github.com/refraction-networking/conjure/pkg/station/lib"
 	pb "github.com/refraction-networking/conjure/proto"
 	"google.golang.org/protobuf/proto"
 
@@ -45,6 +46,7 @@ var c06DomainPatterns = [][]string{
 // IP literals used by the grammar: inside and outside the lists above
 var c06V4 = []string{"203.0.113.10", "203.0.113.70", "203.0.113.200", "10.1.2.3", "192.168.1.1", "127.0.0.1", "198.18.0.1", "0.0.0.0", "255.255.255.255"}
 var c06V6 = []string{"2001:db8:600d::1", "2001:db8:bad::1", "2001:db8:1234::1", "::1", "fc00::1", "fe80::1", "::", "::ffff:10.1.2.3", "::ffff:203.0.113.10", "2001:0db8:600d:0000:0000:0000:0000:0001"}
+var c06Zoned = []string{"fe80::1%eth0", "::1%lo", "fc00::1%eth0", "2001:db8:bad::1%eth0", "::ffff:10.1.2.3%lo", "2001:db8:600d::1%eth0", "::ffff:127.0.0.1%lo", "fe80::1%25eth0", "2001:db8:1234::1%1"}
 var c06Ports = []string{"443", "80", "1", "65535", "0", "65536", "99999", "", "-1", "+80", " 80", "080", "http", "4 43", "443 "}
 var c06Names = []string{"covert.example", "rebind.example", "www.blocked.example", "localhost", "db.internal", "multi.example", "nx.example", "slow.example", "0x0a.0.0.1", "10.1", "167772161", "012.0.0.1", "1.2.3.4.5", "example.com."}
 
@@ -63,7 +65,7 @@ func TestVerifC06(t *testing.T) {
 		Runs:     map[string]int{"quick": 20000, "thorough": 800000},
 		Real:     []string{"RegConfig.ParseBlocklists / ParseOrResolveBlocklisted / isBlocklistedCovertAddr / isBlocklistedCovertDomain", "ingestRegistration (covert overwritten with the resolved literal)", "handleNewTCPConn -> Proxy -> dial of the stored string", "min transport end to end"},
 		Stub:     []string{"net.ResolveIPAddr for names (scripted resolver; literals and the empty host go to the real function, which does no DNS for them)", "net.Dial (recording seam + echo host)", "TCP, liveness, detector, ZMQ"},
-		Rule: "random: policy {5 blocklists x 5 allowlists x 4 domain-pattern sets} x up to 6 registrations whose covert string comes from a grammar: canonical IPv4/IPv6 literals inside and outside the lists, v4-mapped, zoned, unbracketed, expanded, empty host, missing / zero / oversized / signed / padded / non-numeric ports, hostnames (incl. numeric look-alikes such as 0x0a.0.0.1), garbage; resolver scripts per name (permitted-then-forbidden, forbidden-then-permitted, NXDOMAIN, timeout). Every registration is followed by a genuine connection; the dialled string is judged by an independent evaluator. " +
+		Rule: "random: policy {5 blocklists x 5 allowlists x 4 domain-pattern sets}, replaced by a configuration reload (OnReload, station idle) before a registration with probability 1/4, x up to 6 registrations whose covert string comes from a grammar: canonical IPv4/IPv6 literals inside and outside the lists, v4-mapped, zoned, unbracketed, expanded, empty host, missing / zero / oversized / signed / padded / non-numeric ports, hostnames (incl. numeric look-alikes such as 0x0a.0.0.1), garbage; resolver scripts per name (permitted-then-forbidden, forbidden-then-permitted, NXDOMAIN, timeout). Every registration is followed by a genuine connection; the dialled string is judged by an independent evaluator. " +
 			"The textual address space is SAMPLED by the grammar, not enumerated. non-trivial = a registration was admitted and dialled; distinct = (policy, covert string class, resolver script, outcome)",
 		Assume: []string{"policy is evaluated as of admission time", "well-formed = netip.ParseAddrPort accepts the string, no zone, port 1..65535"},
 	})
@@ -143,6 +145,29 @@ func c06Scenario(r *sim.Run) {
 	finished := false
 	s.Spawn("director", func() {
 		for i := 0; i < nregs && !r.Failed(); i++ {
+			if i > 0 && tp.Prob("reload", 1, 4) {
+				// the operator reloads the configuration (SIGHUP -> ParseConfig -> OnReload) while
+				// the station is idle; from here on the new policy is the one in force
+				bi, ai, di = tp.Choose("blocklist", len(c06Blocklists)), tp.Choose("allowlist", len(c06Allowlists)), tp.Choose("domains", len(c06DomainPatterns))
+				o.covertBlock, o.covertAllow, o.domainBlock = c06Blocklists[bi], c06Allowlists[ai], c06DomainPatterns[di]
+				nc := &cj.RegConfig{CovertBlocklistSubnets: o.covertBlock, CovertAllowlistSubnets: o.covertAllow, CovertBlocklistDomains: o.domainBlock, PhantomBlocklist: o.phantomBlock}
+				if err := nc.ParseBlocklists(); err != nil {
+					r.Fail("harness/c06-reload", "%v", err)
+					return
+				}
+				w.rm.OnReload(nc)
+				if permitted, err = c06Policy(o.covertBlock, o.covertAllow); err != nil {
+					r.Fail("harness/c06-policy", "%v", err)
+					return
+				}
+				pats = nil
+				for _, p := range o.domainBlock {
+					pats = append(pats, regexp.MustCompile(p))
+				}
+				r.Logf("C06 reload: blocklist=%v allowlist=%v domain patterns=%v", o.covertBlock, o.covertAllow, o.domainBlock)
+				r.Cover("reload", fmt.Sprint(bi, ai, di))
+				r.Probe("reload")
+			}
 			// covert string from the grammar
 			var covert, class string
 			host := ""
@@ -161,7 +186,9 @@ func c06Scenario(r *sim.Run) {
 				case 0:
 					covert, class = c06V6[tp.Choose("v6", len(c06V6))]+":443", "v6-unbracketed"
 				case 1:
-					covert, class = "[fe80::1%eth0]:80", "v6-zoned"
+					// zoned literals, inside and outside the lists (the zone is not part of the address
+					// a subnet test is about)
+					covert, class = "["+c06Zoned[tp.Choose("zoned", len(c06Zoned))]+"]:"+c06Ports[tp.Choose("port", 4)], "v6-zoned"
 				case 2:
 					covert, class = "["+c06V6[tp.Choose("v6", len(c06V6))]+"]", "v6-no-port"
 				case 3:
